@@ -52,6 +52,13 @@ def context_urls() -> list[bytes]:
             for tail in (b"", b"/more", b"%42c", b"/%7e", b"?q=%41", b"#%2F"):
                 out.append(b"call " + opener + head + closer + tail + b" end")
                 out.append(opener + head + b"%7E" + closer + tail)
+    for opener, closer in ((b"(", b")"), (b"'", b"'")):      # the closing character sits before the host
+        out += [opener + b"http://" + closer + b"@evil.example.com/x", b"call " + opener + b"ftp://u" + closer + b":p@host.example.org/ end",
+                opener + b"https://" + closer, b"fetch" + opener + b"http://" + closer + b"@evil.example.com/payload) and run"]
+    for n in (7, 8, 9, 12, 20):        # Pascal strings in binaries: a non-printable length byte before the URL, '0' at that offset in the match
+        url = b"http://0day.example.com/abcdefghij"
+        url = url[:n] + b"0" + url[n + 1:]
+        out += [bytes(9) + bytes([n]) + url, b"\x01\x02\x03\x04\x05\x06\x07\x08\x0e" + bytes([n]) + url + b"\x00"]
     out += [b"\x05http://a.example.com/%41", b"\x00\x01\x02\x03\x04\x05\x06\x07\x08\x1fhttp://example.com/%7Eabcdefghijklmnopqrstuvwxyz0123"]
     return out
 
